@@ -10,6 +10,7 @@ CONSTANTS
   Limits = {0, 1, 2}
   Nows <- NowsYQ
   WithApi = TRUE
+  WithReader = FALSE
   Pinned = FALSE
   PinnedApi = FALSE
 POSTCONDITION AllConsumed
